@@ -122,6 +122,25 @@ func c12Run(c c12Case, base string) (string, string) {
 			if !waitNotice(`Shell is gone`) {
 				return fail("pre-attempt-lost", "no 'gone' notice after a half-attached output left")
 			}
+		case "many-half-out":
+			/* 1 100 output streams that attach and leave, one after the
+			other (scanners, a typo'd one-liner in a loop): whatever that
+			fills up, the listener is still open afterwards and the one
+			shell still closes it. */
+			for k := 0; k < 1100; k++ {
+				co, err := openOut(fmt.Sprintf("many%d", k))
+				if nil != err {
+					return fail("listener-closed-early", fmt.Sprintf("pre-attempt %d (%s), stream number %d: %v", i, pre, k+1, err))
+				}
+				co.Send("0\r\n\r\n")
+				co.ReadResponse("POST")
+				co.Close()
+			}
+			/* The last of them has been announced gone. */
+			for deadline := time.Now().Add(c12Wait); time.Now().Before(deadline) && strings.Count(p.Output(), "Shell is gone") < 1100; {
+				time.Sleep(20 * time.Millisecond)
+			}
+			mark = len(p.Output())
 		case "refused-io":
 			/* A bidirectional client beside a held input: it is refused,
 			and is no shell. */
@@ -400,6 +419,8 @@ func c12(r *ev.Result, tier string) {
 	for _, arr := range []string{"in-out", "io"} {
 		cases = append(cases, c12Case{Arrival: arr, Ending: "eof", Trigger: "line", QuietMs: long})
 	}
+	/* Very many half-attached attempts before the shell. */
+	cases = append(cases, c12Case{Pre: []string{"many-half-out"}, Arrival: "in-out", Ending: "eof", Trigger: "line"})
 	/* A shell that ends the moment it is ready. */
 	for _, arr := range []string{"in-out", "out-in", "io"} {
 		for _, end := range []string{"eof", "close-both"} {
